@@ -60,6 +60,8 @@ KIND_TAGS = {
     "name": ["str", "other", "int", "none"],
     "text": ["str"],
     "selfc": ["Other", "Other+compiled"],
+    "rangestrs": ["rangestrs"],
+    "charlist": ["charlist"],
     "newobj": ["new"],
     "varpre_small": ["", "Other", "str2", "other", "Empty", "Other|Alternation", "Empty|Other", "Other|other", "str2|Empty|Other",
                      "Assertion|str1"],
@@ -126,6 +128,14 @@ def make_value(eng, path, name, kind, tag, fi=None):
         if tag == "":
             return ()
         return tuple(make_value(eng, path, f"{name}{i}", "pre", t, fi) for i, t in enumerate(tag.split("|")))
+    if tag == "rangestrs":
+        n = z3.Int(f"{name}_len")
+        path.assume(n >= 0)
+        return fresh_maplist(eng, name, "rangestr", n)
+    if tag == "charlist":
+        n = z3.Int(f"{name}_len")
+        path.assume(n >= 0)
+        return fresh_maplist(eng, name, "char", n)
     if tag.startswith("Group:"):
         return new_group_shaped(eng, path, name, tag.split(":")[1])
     if kind in ("optname", "name") and tag == "str":
@@ -643,6 +653,174 @@ def sb_INFERRED(eng, path, p):
     return f["_Pregex__type"] is t and f["_Pregex__repeatable"] is r
 
 
+# ---- interval views (class algebra, G8) --------------------------------------------------------------------
+from .values import as_pair, fresh_maplist, range_string, MapList as _ML
+from .symex import SymSet as _SymSet, CharPair as _CP
+
+MAXCP = 0x10FFFF
+
+
+class View:
+    """a set of code points given by a membership predicate"""
+
+    def __init__(self, mem):
+        self.mem = mem
+
+
+def _seq_of(lst):
+    if isinstance(lst, _SymSet):
+        lst = lst.seq
+    if isinstance(lst, (list, tuple)):
+        items = list(lst)
+        return z3.IntVal(len(items)), (lambda k, items=items: ite_list(k, items))
+    return lst.length, lst.getter
+
+
+def ite_list(k, items):
+    from .symex import merge_values
+    v = items[-1]
+    for i in range(len(items) - 2, -1, -1):
+        v = merge_values(zterm(k) == i, items[i], v)
+    return v
+
+
+def _defined_view(eng, path, lst, body_of, tag):
+    """a view with its own membership predicate  mem_L(x)  and the definitional axiom
+         forall x. mem_L(x) <=> exists k. 0 <= k < len(L) and body(L[k], x)
+    (sets as predicates with triggers: instantiation-friendly for the solvers' E-matching)"""
+    n, g = _seq_of(lst)
+    nz = zterm(n)
+    if z3.is_int_value(nz) and nz.as_long() == 0:
+        return View(lambda x: z3.BoolVal(False))
+    holder = lst.seq if isinstance(lst, _SymSet) else lst
+    cache = getattr(holder, "_views", None)
+    if cache is None:
+        try:
+            holder._views = cache = {}
+        except AttributeError:
+            cache = {}
+    if tag in cache:
+        return cache[tag]
+    sym = z3.Function(f"mem_{tag}!{eng.fresh_id()}", IntS, BoolS)
+    x = z3.Int("x!def")
+    k = z3.Int("k!def")
+    body = body_of(g(k), x)
+    path.assume(z3.ForAll([x], sym(x) == z3.Exists([k], z3.And(k >= 0, k < nz, body)), patterns=[sym(x)]))
+    v = View(lambda y, sym=sym: sym(y))
+    cache[tag] = v
+    return v
+
+
+def sb_RV(eng, path, lst):
+    """view of a list / set of ranges (pairs, 2-lists or range strings)"""
+    def body(el, x):
+        lo, hi = as_pair(el)
+        return z3.And(lo <= x, x <= hi)
+    return _defined_view(eng, path, lst, body, "r")
+
+
+def sb_CV(eng, path, lst):
+    """view of a list / set of single characters"""
+    return _defined_view(eng, path, lst, lambda el, x: zterm(el.code) == x, "c")
+
+
+def sb_IV(eng, path, lo, hi):
+    return View(lambda x, lo=lo, hi=hi: z3.And(zterm(lo.code) <= x, x <= zterm(hi.code)))
+
+
+def sb_ELV(eng, path, lst, k):
+    """view of the single range lst[k]"""
+    n, g = _seq_of(lst)
+    lo, hi = as_pair(g(zterm(k)))
+    return View(lambda x, lo=lo, hi=hi: z3.And(lo <= x, x <= hi))
+
+
+def sb_VU(eng, path, *vs):
+    return View(lambda x, vs=vs: z3.Or(*[v.mem(x) for v in vs]))
+
+
+def sb_VM(eng, path, a, b):
+    return View(lambda x, a=a, b=b: z3.And(a.mem(x), z3.Not(b.mem(x))))
+
+
+def sb_VEQ(eng, path, a, b):
+    x = z3.Int("x!veq")
+    return z3.ForAll([x], a.mem(x) == b.mem(x))
+
+
+def sb_VDISJ(eng, path, a, b):
+    x = z3.Int("x!vd")
+    return z3.ForAll([x], z3.Not(z3.And(a.mem(x), b.mem(x))))
+
+
+def sb_VEMPTY(eng, path, a):
+    x = z3.Int("x!ve")
+    return z3.ForAll([x], z3.Not(a.mem(x)))
+
+
+def sb_WFR(eng, path, lst):
+    """every element of a range list is a well-formed range of code points"""
+    n, g = _seq_of(lst)
+    if z3.is_int_value(zterm(n)) and zterm(n).as_long() == 0:
+        return True
+    k = z3.Int("k!wf")
+    lo, hi = as_pair(g(k))
+    return z3.ForAll([k], z3.Implies(z3.And(k >= 0, k < n), z3.And(0 <= lo, lo <= hi, hi <= MAXCP)))
+
+
+def sb_WFC(eng, path, lst):
+    n, g = _seq_of(lst)
+    if z3.is_int_value(zterm(n)) and zterm(n).as_long() == 0:
+        return True
+    k = z3.Int("k!wfc")
+    c = zterm(g(k).code)
+    return z3.ForAll([k], z3.Implies(z3.And(k >= 0, k < n), z3.And(0 <= c, c <= MAXCP)))
+
+
+def sb_LSAME(eng, path, a, b):
+    """two lists are element-wise equal (ranges compared by end points, characters by code)"""
+    na, ga = _seq_of(a)
+    nb, gb = _seq_of(b)
+    k = z3.Int("k!ls")
+    ea, eb = ga(k), gb(k)
+    try:
+        (a1, a2), (b1, b2) = as_pair(ea), as_pair(eb)
+        eq = z3.And(a1 == b1, a2 == b2)
+    except TypeError:
+        eq = zterm(ea.code) == zterm(eb.code)
+    return z3.And(zterm(na) == zterm(nb), z3.ForAll([k], z3.Implies(z3.And(k >= 0, k < zterm(na)), eq)))
+
+
+def sb_PREFIX_DISJ(eng, path, lst, upto, other):
+    """every range lst[k], k < upto, is disjoint from the view `other`"""
+    n, g = _seq_of(lst)
+    k = z3.Int("k!pd")
+    x = z3.Int("x!pd")
+    lo, hi = as_pair(g(k))
+    return z3.ForAll([k, x], z3.Implies(z3.And(k >= 0, k < zterm(upto), lo <= x, x <= hi), z3.Not(other.mem(x))))
+
+
+def sb_PREFIXV(eng, path, lst, upto):
+    """view of the ranges lst[0 .. upto)"""
+    n, g = _seq_of(lst)
+    u = zterm(upto)
+
+    def mem(x, g=g, u=u):
+        k = z3.Int("k!pv")
+        lo, hi = as_pair(g(k))
+        return z3.Exists([k], z3.And(k >= 0, k < u, lo <= x, x <= hi))
+    return View(mem)
+
+
+def sb_LEN(eng, path, lst):
+    n, g = _seq_of(lst)
+    return n
+
+
+def sb_CODE(eng, path, c):
+    return c.code
+
+
 SPEC_BUILTINS = {k[3:]: v for k, v in list(globals().items()) if k.startswith("sb_")}
 
 
@@ -763,7 +941,14 @@ def ret_setcompiled(eng, path, env, fi, contract):
     return None
 
 
-RETURNS = {"none": ret_none, "infer": ret_infer, "initpregex": ret_initpregex, "setcompiled": ret_setcompiled, "to_pregex": ret_to_pregex, "pregex": ret_pregex, "expr": ret_expr, "newpregex": ret_newpregex}
+def ret_split_range(eng, path, env, fi, contract):
+    """__split_range('a-z') == ['a', 'z'] for two single characters (assumed contract; bounded-checked)"""
+    from .symex import CharV, CharPair
+    lo, hi = as_pair(env["pattern"])
+    return CharPair(CharV(lo), CharV(hi), mutable=True)
+
+
+RETURNS = {"split_range": ret_split_range, "none": ret_none, "infer": ret_infer, "initpregex": ret_initpregex, "setcompiled": ret_setcompiled, "to_pregex": ret_to_pregex, "pregex": ret_pregex, "expr": ret_expr, "newpregex": ret_newpregex}
 
 
 # ------------------------------------------------------------------------------------------------------
